@@ -325,6 +325,17 @@ each (all 529 pairs), observed through for_url on five probe hosts (three names,
                         );
                     }
                 }
+                // a URL that names the proxy's own host and port is a URL like any other: it is fetched through the proxy
+                for (bit, sch2, p) in [(1u8, "http", &p_http), (2u8, "https", &p_https)] {
+                    if proxies & bit != 0 {
+                        let own = url::Url::parse(&format!("{sch2}://{}:{}/status", p.host_str().unwrap(), p.port().unwrap())).unwrap();
+                        let g = settings.for_url(&own).map(|x| x.to_string());
+                        ctx.sub_evals += 1;
+                        if g.as_deref() != Some(p.as_str()) {
+                            return Outcome::fail("C11:builder:proxy-own-address-not-proxied", format!("for_url({own}) = {g:?}, the proxy configured for {sch2} is {p} (no-proxy entries {ents:?})"));
+                        }
+                    }
+                }
                 Outcome::Pass
             }
             Case::Env { vars, np_lower, np_upper } => {
